@@ -462,11 +462,12 @@ def gen_points(r, n, d, quick):
     return style, xs
 
 
-def gen_trx(r, quick, kind=None):
+def gen_trx(r, quick, kind=None, n_fixed=None):
     """one problem and the op lines of its configuration cross (one group = one problem; objectives are compared
     within a group, sparse/dense and float/double twins must agree bit for bit on exact data)"""
     kind = kind or r.choice(["c", "c", "c", "q", "q", "e", "o", "r", "m"])
     n = r.choice([1, 2, 2, 3]) if r.chance(1, 5) else r.range(2, 8 if quick else 12)
+    if n_fixed: n = n_fixed
     if kind != "o" and n < 2: n = 2
     d = r.range(1, 3)
     style, xs = gen_points(r, n, d, quick)
@@ -598,6 +599,9 @@ def run_extended(ctx, exe, r, ngen):
     kinds = ["c", "q", "e", "o", "r", "m"]
     for k in range(ngen):
         groups_all.append(gen_trx(r, ctx.quick, kind=kinds[k] if k < len(kinds) else None))   # every kind in every run
+    groups_all.append(gen_trx(r, ctx.quick, kind="o", n_fixed=1))     # a single point: one free variable, offset = its gradient
+    for k in "cqerm":
+        groups_all.append(gen_trx(r, ctx.quick, kind=k, n_fixed=2))   # the smallest two-class / one-pair problems
     for _ in range(3 if ctx.quick else 12):
         groups_all.append(gen_trx_slow(r, ctx.quick))
     for info, groups in groups_all:
